@@ -21,6 +21,7 @@ GVH = os.path.join(HARNESS, "target", "debug", "gvh")
 GMODEL = os.path.join(LEAN, ".lake", "build", "bin", "gmodel")
 REPO = "/repo"
 RETRIED_TIMEOUTS = []
+HARNESS_DEGRADED = None     # set to the compiler output when only the public-API harness could be built
 ALLOWED_AXIOMS = {"propext", "Classical.choice", "Quot.sound"}
 ENV = dict(os.environ, CARGO_NET_OFFLINE="true", RUST_BACKTRACE="0")
 
@@ -140,7 +141,15 @@ def build_harness():
     if not os.path.exists(lock_dst):
         with open(lock_src) as s, open(lock_dst, "w") as d:
             d.write(s.read())
+    global HARNESS_DEGRADED
     rc, out, err, secs = sh(["cargo", "build", "--offline"], cwd=HARNESS, timeout=3000)
+    if rc != 0:
+        # A change to /repo may have broken a crate-internal API that only the component-level ties use. Rebuild with the
+        # public engine API only, so that the SQL-level checks still run and can search for a failing input.
+        rc2, out2, err2, secs2 = sh(["cargo", "build", "--offline", "--no-default-features"], cwd=HARNESS, timeout=3000)
+        if rc2 == 0:
+            HARNESS_DEGRADED = (out + err)[-3000:]
+            return True, "degraded build (internals feature off): " + (out + err)[-3000:], secs + secs2
     return rc == 0, (out + err)[-4000:], secs
 
 
@@ -194,15 +203,21 @@ class SqlRunner:
     """Child `gvh sql` process; one request = fresh engine + list of statements.
     A dead or hung child is reported as outcome 'crash'/'timeout' for that request."""
 
-    def __init__(self, timeout=60):
+    def __init__(self, timeout=60, mem_gb=8):
         self.timeout = timeout
+        self.mem_gb = mem_gb
         self.p = None
         self.n = 0
         self.crashes = 0
 
     def _start(self):
+        def limit():
+            # address-space limit: a runaway statement (e.g. a scan that keeps reading its own appends) must kill
+            # the child, not the sandbox
+            import resource
+            resource.setrlimit(resource.RLIMIT_AS, (self.mem_gb << 30, self.mem_gb << 30))
         self.p = subprocess.Popen([GVH, "sql"], stdin=subprocess.PIPE, stdout=subprocess.PIPE,
-                                  stderr=subprocess.PIPE, text=True, env=ENV, bufsize=1)
+                                  stderr=subprocess.PIPE, text=True, env=ENV, bufsize=1, preexec_fn=limit)
         import threading
         self.errbuf = []
 
@@ -377,6 +392,11 @@ class Check:
         os.makedirs(os.path.join(ROOT, "evidence"), exist_ok=True)
         os.makedirs(os.path.join(ROOT, "replays", self.prop), exist_ok=True)
         lines = []
+        if HARNESS_DEGRADED:
+            self.coverage["harness_degraded"] = "component-level ties could not be built against /repo; SQL-level checks only: " + HARNESS_DEGRADED[-600:]
+            if not self.violations:
+                self.violations.append(("harness/internal-api", "the component-level correspondence harness no longer builds against /repo (a crate-internal API it calls changed); "
+                                        "the SQL-level checks found no failing input", {"correspondence": "harness build with feature `internals`", "log": HARNESS_DEGRADED[-1500:]}, False))
         for key, what in self.known_hits.items():
             lines.append(f"KNOWN-FINDING: property={self.prop} key={key} {what}")
         for key, what, replay, found in self.violations:
